@@ -1,17 +1,42 @@
 /-
   C02 — every parse terminates, including under error recovery.
-  INTERIM file.  Proved here about the model (after the `fix:` commit to
-  `stabilize`): a stabilising retry is attempted only after the lexer has
-  moved — when `advance_to_recover` leaves the cursor where it was, the failure
-  is returned instead of retrying ("never retry from a position already tried
-  without having consumed input").  The fuel-bound theorem (`run` never runs
-  out of fuel above an explicit bound) is in progress; the `term` family
-  (watchdog on the real parse + fuel in the model) carries the statement.
+
+  The model `run` (TephraModel/Run.lean) turns every Rust loop into a
+  fuel-consuming recursion; `RRes.fuel` is "still running".  Proved here, for an
+  arbitrary user scanner satisfying the scanner contract `ScanOK` (a scanned
+  token is non-empty and ends inside the text):
+
+  * `C02_fuel_mono` — the fuel is not a bound on behaviour: a result obtained with
+    fuel `n` is the result with every `m ≥ n`.
+  * `C02_cursor_mono` — a successful parser returns a lexer that is not behind the
+    one it was given, and inside the text (also for `either`, `maybe`, `recover*`,
+    `bracket*`, which hand back clones taken earlier).
+  * `C02_recovery_loops_terminate` — `advance_to_recover`, `match_nested_brackets`
+    and the retry loops of `stabilize` / `list` terminate by the measure
+    `len - cursor`: a stabilising retry only ever starts from a strictly later
+    position ("never retry from a position already tried without having consumed
+    input"), and every round of `list` consumes at least its separator or the
+    token that is in the way.
+  * `C02` (= `C02_statement`) — with the explicit fuel `B len g` (structural in the
+    grammar, linear in the length of the text) `run` never runs out of fuel, and
+    the result does not change with more.  Repetition combinators (`repeat*`,
+    `intersperse*`) are covered under the hypothesis of the property — the
+    repeated parser consumes at least one token whenever it succeeds (`RepOK`,
+    which is necessary: the Rust loops forever on `repeat(0, None, empty)`);
+    `C02_terminates_loopFree` is the hypothesis-free case.
+
+  Assumption of the model made explicit: the `id` of a `recover`/`list` node stands
+  for the identity of its Rust closure object, so two nodes carrying the same id
+  must carry the same predicate (`IdsFunctional`; always true for grammars read by
+  `GWire.parseG`, which numbers the nodes).  Without it the *model* (not the
+  Rust) can loop: `recover 1 0 (list 1 0 0 none (maybe (one 0)) 4 [5]) (beforeAny [1])`
+  on the text `b` with a sink.
 -/
 import TephraModel.Run
+import TephraProofs.Termination
 
 namespace Tephra.Props
-open Tephra
+open Tephra Tephra.Term
 
 theorem C02_stabilize_no_retry_without_progress (R : RunEnv) (n : Nat) (a : G) (lx lx1 : Lx) (ctx : Ctx)
     (e : PErr) (W W1 : World)
@@ -25,5 +50,166 @@ theorem C02_stabilize_without_recover_state (R : RunEnv) (n : Nat) (a : G) (lx :
     (e : PErr) (W : World) (h : lx.recover = none) :
     stabLoop R (n + 1) a lx ctx (.err e) W = (.err e, W) := by
   simp [stabLoop, advanceToRecover, h]
+
+/-- **Fuel is not a bound on behaviour**: if `run` does not run out of fuel with `n`,
+it returns the same result (and world) with every `m ≥ n`.  The same holds for every
+function of the mutual block (`Term.mono_all`) and for `matchLoop`
+(`Term.matchLoop_fuel_mono`). -/
+theorem C02_fuel_mono (R : RunEnv) (n m : Nat) (hm : n ≤ m) (g : G) (lx : Lx) (ctx : Ctx) (W : World)
+    (h : (run R n g lx ctx W).1 ≠ .fuel) : run R m g lx ctx W = run R n g lx ctx W :=
+  run_fuel_mono R hm g lx ctx W h
+
+/-- the same for all ten fuelled functions of the mutual block at once. -/
+theorem C02_fuel_mono_all (R : RunEnv) (n m : Nat) (hm : n ≤ m) : MonoAt R n m := mono_all R n m hm
+
+/-- **Cursor monotonicity**: under `ScanOK`, from a well-formed lexer (`WF`: the lexer
+of this text, cursor inside the text, lookahead ahead of the cursor) a successful parse
+returns a well-formed lexer whose cursor is not behind the input's and not past the end
+of the text — for every constructor of `G`. -/
+theorem C02_cursor_mono {R : RunEnv} {m : Metrics} {len : Nat} (ok : ScanOK R.E m len) (n : Nat) (g : G) (lx : Lx)
+    (ctx : Ctx) (W : World) (wf : WF m len lx) {v : Val} {lx' : Lx} (h : (run R n g lx ctx W).1 = .ok v lx') :
+    WF m len lx' ∧ lx.cursor.byte ≤ lx'.cursor.byte ∧ lx'.cursor.byte ≤ len :=
+  run_cursor_mono ok n g lx ctx W wf h
+
+/-- a delivered token moves the cursor strictly forward; every lexer method keeps `WF`. -/
+theorem C02_next_progress {R : RunEnv} {m : Metrics} {len : Nat} (ok : ScanOK R.E m len) {lx : Lx}
+    (wf : WF m len lx) : WF m len (lx.next R.E).2 ∧ lx.cursor.byte ≤ (lx.next R.E).2.cursor.byte ∧
+      ((lx.next R.E).1.isSome → lx.cursor.byte < (lx.next R.E).2.cursor.byte) :=
+  ⟨(next_wf ok wf).1, (next_wf ok wf).2.1, (next_wf ok wf).2.2.1⟩
+
+/-- **The recovery loops terminate.**
+1. `advance_to_recover`: from `len - cursor + 1` on, the result of its loop does not
+   depend on the fuel (the model gives it `len + 2`): it never stops for lack of fuel.
+2. `match_nested_brackets` never runs out of fuel with `len - cursor + 1` (it gets `len + 2`).
+3. `stabilize`: if each attempt of the body terminates (fuel `k`), the retry loop does with
+   `len - cursor + 1 + k` — every retry starts from a strictly later position.
+4. the same for the retry loop around a `list` value.
+5. the separator step of `list` consumes input whenever the loop goes round again. -/
+theorem C02_recovery_loops_terminate {R : RunEnv} {m : Metrics} {len : Nat} {T : Nat → Rec}
+    (ok : ScanOK R.E m len) :
+    (∀ id n k (lx : Lx) W, WF m len lx → len - lx.cursor.byte + 1 ≤ n → n ≤ k →
+      recoverLoop R id k lx W = recoverLoop R id n lx W) ∧
+    (∀ opens closes abort sp n (lexer : Lx) ol opened, WF m len lexer → len - lexer.cursor.byte + 1 ≤ n →
+      matchLoop R opens closes abort sp n lexer ol opened ≠ .fuel) ∧
+    (∀ k a ctx, Consistent T a →
+      (∀ lx1 W1, WF m len lx1 → WOK T W1 → (run R k (.unrecoverable a) lx1 ctx W1).1 ≠ .fuel) →
+      ∀ (lx : Lx) res W, WF m len lx → WOK T W → res ≠ .fuel →
+        (stabLoop R (len - lx.cursor.byte + 1 + k) a lx ctx res W).1 ≠ .fuel) ∧
+    (∀ k dv id pat body ctx, T id = pat → Consistent T body →
+      (∀ lx1 W1, WF m len lx1 → WOK T W1 →
+        (recoverDefault R k dv id pat body lx1 ctx.withoutSink W1).1 ≠ .fuel) →
+      ∀ (lx : Lx) res W, WF m len lx → WOK T W → res ≠ .fuel →
+        (stabValue R (len - lx.cursor.byte + 1 + k) dv id pat body lx ctx res W).1 ≠ .fuel) ∧
+    (∀ n id sep abort (lexer1 lexer2 lexer3 : Lx) t2 ctx W1 W2 v, WF m len lexer1 → WOK T W1 →
+      T id = .sepOrAbort sep abort → lexer1.peek R.E = (some t2, lexer2) → ¬ abort.contains t2.kind = true →
+      recoverDefault R n .dflt id (.sepOrAbort sep abort) (.discard (.one sep)) lexer2 ctx W1 = (.ok v lexer3, W2) →
+      lexer2.cursor.byte < lexer3.cursor.byte) :=
+  ⟨fun id n k lx W wf hn hk => recoverLoop_fuel ok id n k lx W wf hn hk,
+   fun opens closes abort sp n lexer ol opened wf hn =>
+     matchLoop_terminates ok opens closes abort sp n lexer ol opened wf hn,
+   fun _ _ _ hc hk lx res W wf hw hres =>
+     stabLoop_terminates ok hc hk _ lx res W wf hw (Nat.le_refl _) hres _ (Nat.le_refl _),
+   fun _ _ _ _ _ _ hT hc hk lx res W wf hw hres =>
+     stabValue_terminates ok hT hc hk _ lx res W wf hw (Nat.le_refl _) hres _ (Nat.le_refl _),
+   fun _ _ _ _ _ _ _ _ _ _ _ _ wf hw hT hp hab h => sep_progress ok wf hw hT hp hab h⟩
+
+/-- The full statement of C02 about the model: for every scanner satisfying the scanner
+contract, every grammar whose recovery ids determine their predicate and whose repetitions
+are productive, every well-formed lexer (in particular the initial one), context and
+consistent world (in particular the initial one): `run` with fuel `B len g` does not run
+out of fuel, and any larger fuel gives the same result. -/
+def C02_statement : Prop :=
+  ∀ (R : RunEnv) (m : Metrics) (len : Nat), ScanOK R.E m len →
+  ∀ (g : G), IdsFunctional (recIds g) → RepOK R m len g →
+  ∀ (lx : Lx) (ctx : Ctx) (W : World), WF m len lx → WOK (tableOf (recIds g)) W →
+    (run R (B len g) g lx ctx W).1 ≠ .fuel ∧ ∀ n, B len g ≤ n → run R n g lx ctx W = run R (B len g) g lx ctx W
+
+/-- **C02.** -/
+theorem C02 : C02_statement := by
+  intro R m len ok g hids hrep lx ctx W wf hw
+  have hc := consistent_tableOf g hids
+  exact ⟨terminates ok g hc hrep (Nat.le_refl _) lx ctx W wf hw,
+    fun n hn => terminates_stable ok g hc hrep hn lx ctx W wf hw⟩
+
+/-- C02 from the initial state of a parse. -/
+theorem C02_initial {R : RunEnv} {m : Metrics} {len : Nat} (ok : ScanOK R.E m len) (g : G)
+    (hids : IdsFunctional (recIds g)) (hrep : RepOK R m len g) (s0 : Nat) (ctx : Ctx) :
+    (run R (B len g) g (Lexer.new s0 m len) ctx World.init).1 ≠ .fuel :=
+  (C02 R m len ok g hids hrep _ ctx _ (wf_new s0) WOK_init).1
+
+/-- the hypothesis-free case: no `repeat*` / `intersperse*` in the grammar (`list`,
+`stabilize`, `recover*`, `bracket*`, `up_to`, … included). -/
+theorem C02_terminates_loopFree {R : RunEnv} {m : Metrics} {len : Nat} (ok : ScanOK R.E m len) (g : G)
+    (hlf : loopFree g = true) (hids : IdsFunctional (recIds g)) (lx : Lx) (ctx : Ctx) (W : World)
+    (wf : WF m len lx) (hw : WOK (tableOf (recIds g)) W) :
+    (run R (B len g) g lx ctx W).1 ≠ .fuel :=
+  (C02 R m len ok g hids (repOK_of_loopFree g hlf) lx ctx W wf hw).1
+
+/-- the name used in the plan for the hypothesis-free fragment. -/
+theorem C02_terminates_partial {R : RunEnv} {m : Metrics} {len : Nat} (ok : ScanOK R.E m len) (g : G)
+    (hlf : loopFree g = true) (hids : IdsFunctional (recIds g)) (lx : Lx) (ctx : Ctx) (W : World)
+    (wf : WF m len lx) (hw : WOK (tableOf (recIds g)) W) :
+    (run R (B len g) g lx ctx W).1 ≠ .fuel :=
+  C02_terminates_loopFree ok g hlf hids lx ctx W wf hw
+
+/-- the loop of `list`: if the item parser terminates with fuel `k`, the loop does with
+`len - cursor + k + len + 7`, whatever the item parser consumes (each round that continues
+has consumed at least the separator or the token in the way). -/
+theorem C02_list_loop_terminates {R : RunEnv} {m : Metrics} {len : Nat} {T : Nat → Rec} (ok : ScanOK R.E m len)
+    {v id lo : Nat} {hi : Option Nat} {a : G} {sep : Nat} {abort : List Nat} {ctx : Ctx} {k : Nat}
+    (hc : Consistent T a) (hT : T id = .sepOrAbort sep abort)
+    (ht : ∀ n, k ≤ n → ∀ lx ctx W, WF m len lx → WOK T W → (run R n a lx ctx W).1 ≠ .fuel)
+    (lexer : Lx) (W : World) (vals : List Val) (wf : WF m len lexer) (hw : WOK T W) :
+    (listLoop R (len - lexer.cursor.byte + (k + len + 7)) v id lo hi a sep abort lexer ctx W vals).1 ≠ .fuel :=
+  listLoop_term ok hc hT ht _ lexer W vals wf hw (Nat.le_refl _) _ (Nat.le_refl _)
+
+/-- the single-token parsers are productive (usable to discharge `RepOK`). -/
+theorem C02_prog_one {R : RunEnv} {m : Metrics} {len : Nat} (ok : ScanOK R.E m len) (k : Nat) :
+    Prog R m len (.one k) := by
+  intro n lx ctx W v lx' wf h
+  cases n with
+  | zero => simp [run] at h
+  | succ n =>
+    have hn := next_wf ok wf
+    simp only [run] at h
+    split at h
+    · next t lx1 heq =>
+      rw [heq] at hn
+      split at h
+      · cases h; exact hn.2.2.1 rfl
+      · cases h
+    · cases h
+
+/-! ### non-vacuity -/
+
+namespace Witness
+
+/-- three one-byte tokens of kinds 0, 1, 0. -/
+def scanW (s : Nat) (_m : Metrics) (p : Pos) : Option (Tok × Pos) × Nat :=
+  if p.byte < 3 then (some (⟨p.byte % 2, 0⟩, ⟨p.byte + 1, 0, p.byte + 1⟩), s + 1) else (none, s)
+
+def RW : RunEnv := ⟨⟨scanW, fun _ _ => true⟩, []⟩
+def mW : Metrics := ⟨.lf, 4⟩
+
+theorem scanW_ok : ScanOK RW.E mW 3 := by
+  constructor
+  · intro s p tok adv s' h
+    simp only [RW, scanW] at h
+    split at h
+    · cases h; simp; omega
+    · cases h
+  · intro s p h
+    simp only [RW, scanW]
+    rw [if_neg (by omega)]
+
+/-- `stabilize(list(one 0, sep 1, abort [2]))` followed by a repetition of `one 0`. -/
+def gW : G := .both (.stabilize (.list 1 0 0 none (.one 0) 1 [2])) (.repeat_ 0 0 none (.one 0))
+
+example : (run RW (B 3 gW) gW (Lexer.new 0 mW 3) ⟨true, [], false⟩ World.init).1 ≠ .fuel :=
+  C02_initial scanW_ok gW
+    (by intro p hp q hq _; simp [gW, recIds] at hp hq; rw [hp, hq])
+    (by simp only [gW, RepOK]; exact ⟨trivial, C02_prog_one scanW_ok 0, trivial⟩) 0 _
+
+end Witness
 
 end Tephra.Props
